@@ -13,7 +13,7 @@ import vgen
 import expand
 
 VERIF = os.path.dirname(os.path.dirname(os.path.abspath(__file__)))
-GEN = os.path.join(VERIF, 'gen')
+GEN = os.environ.get('VERIF_GEN_DIR') or os.path.join(VERIF, 'gen')
 
 DEFINITE = (
     'postcondition not satisfied',
